@@ -48,9 +48,14 @@ def main():
         rc, out = sh([PY, str(mdir / "demo.py")], cwd="/tmp", env=env, timeout=600)
         res["demo_mutant_exit"] = rc
         res["demo_mutant_tail"] = out.strip()[-300:]
+        # every run gets its OWN copy of the Coq tree (.vo included, so only what depends on regenerated files is
+        # rebuilt) and of the oracles: regenerated coq/gen files never leak into /verif or into concurrent runs
+        iso = Path(f"/tmp/seedtest_iso_{os.getpid()}")
+        sh(f"rm -rf {iso}; mkdir -p {iso}/build && cp -r {ROOT}/coq {iso}/coq && cp -r {ROOT}/build/oracle {iso}/build/oracle 2>/dev/null; true")
         for p in props:
             t0 = time.time()
-            e2 = dict(os.environ, VERIF_REPO=str(wt), VERIF_EVIDENCE_DIR=f"/tmp/seedtest_ev_{os.getpid()}")
+            e2 = dict(os.environ, VERIF_REPO=str(wt), VERIF_EVIDENCE_DIR=f"/tmp/seedtest_ev_{os.getpid()}",
+                      VERIF_COQ_DIR=str(iso / "coq"), VERIF_BUILD_DIR=str(iso / "build"))
             rc, out = sh([str(ROOT / "check"), p, "--tier", tier], cwd=str(ROOT), env=e2, timeout=7200)
             lines = [l for l in out.splitlines() if l.startswith(("VIOLATION", "KNOWN-FINDING", "OK ", "  failing input", "  broken"))]
             res["props"][p] = dict(exit=rc, wall=round(time.time() - t0, 1), caught=(rc == 1 and any(l.startswith("VIOLATION") for l in lines)),
@@ -59,7 +64,7 @@ def main():
         return res
     finally:
         sh(["git", "-C", "/repo", "worktree", "remove", "--force", str(wt)])
-        sh(f"rm -rf /tmp/seedtest_ev_{os.getpid()}")
+        sh(f"rm -rf /tmp/seedtest_ev_{os.getpid()} /tmp/seedtest_iso_{os.getpid()}")
         (mdir / "result.json").write_text(json.dumps(res, indent=1))
         print(json.dumps(res, indent=1))
 
